@@ -408,4 +408,115 @@ Proof.
   - exists s. split; [reflexivity|]. vm_compute. reflexivity.
   - vm_compute in E. discriminate E.
 Qed.
-(*STOP*)
+
+(* ---- declarative (position-quantified) forms ------------------------------------------------------- *)
+Lemma accept_app s l1 l2 : accept s (l1 ++ l2) = match accept s l1 with Some s1 => accept s1 l2 | None => None end.
+Proof. revert s. induction l1 as [|e l1 IH]; intros s; cbn; [reflexivity|]. destruct (step s e); [apply IH|reflexivity]. Qed.
+
+(* the binding thread -> instance never changes *)
+Lemma step_core_thinst s th e s' : step_core s th e = Some s' ->
+  thinst s' = thinst s \/ (exists i, e = EBegin i /\ get th (thinst s) = None /\ thinst s' = set th i (thinst s)).
+Proof.
+  intros H. destruct (exceptional e) eqn:Hex.
+  2:{ left. destruct (step_core_same _ _ _ _ Hex H) as (_ & T & _). exact T. }
+  destruct e; try discriminate Hex; cbn in H.
+  - left. unfold step_reg in H. break_step H. subst s'. reflexivity.
+  - right. break_step H. subst s'. exists i. split_andb. unfold has in *. destruct (get th (thinst s)); [discriminate|]. auto.
+  - left. unfold step_state in H. break_step H; subst s'; unfold set_pc, end_finish; autorewrite with sup;
+      repeat match goal with |- context[thinst (if ?b then _ else _)] => destruct b end; autorewrite with sup; reflexivity.
+  - left. unfold step_own, own_inst in H. break_step H; subst s'; autorewrite with sup; reflexivity.
+  - left. unfold step_own, own_inst in H. break_step H; subst s'; unfold set_pc; autorewrite with sup; reflexivity.
+  - left. unfold step_own, own_inst in H. break_step H; subst s'; unfold set_pc; autorewrite with sup; reflexivity.
+Qed.
+
+Lemma step_thinst s e s' th i : step s e = Some s' -> get th (thinst s) = Some i -> get th (thinst s') = Some i.
+Proof.
+  destruct e as [th' e]. unfold step. cbn [fst snd]. intros H Ht. rewrite <- (flush_thinst th' s) in Ht.
+  destruct (step_core_thinst _ _ _ _ H) as [->|(i' & _ & Hnone & ->)]; [exact Ht|].
+  rewrite get_set. destruct (N.eqb_spec th' th); [subst; congruence|exact Ht].
+Qed.
+
+(* "instance i of thread th has left the launch path for good" *)
+Definition Off (th : tid) (i : iid) (s : sys) : Prop :=
+  get th (thinst s) = Some i /\ exists x, get i (insts s) = Some x /\ nofail_pc (pc x) = false.
+
+Lemma Off_step th i s e s' : step s e = Some s' -> Off th i s -> Off th i s'.
+Proof.
+  intros H (Ht & x & Ex & Hp). split; [eapply step_thinst; eauto|].
+  destruct e as [th' e]. unfold step in H. cbn [fst snd] in H.
+  pose proof (flush_pc th' s i) as F. rewrite Ex in F. destruct F as (x0 & Ex0 & _ & Hp0).
+  destruct (is_new e) eqn:Hn.
+  - destruct e; try discriminate Hn. destruct (step_core_new _ _ _ _ _ H) as (Hfresh & c & _ & ->).
+    exists x0. cbn. rewrite get_set_other by congruence. split; [exact Ex0|congruence].
+  - pose proof (step_core_pc _ _ _ _ Hn H i) as M. rewrite Ex0 in M. destruct M as (y & Ey & _ & Hpc & _).
+    exists y. split; [exact Ey|]. destruct Hpc as [->|[_ Tr]]; [congruence|].
+    destruct (nofail_pc (pc y)) eqn:Ny; [|reflexivity]. destruct (trans_nofail _ _ _ Tr Ny). congruence.
+Qed.
+
+Lemma Off_accept th i evs : forall s s', accept s evs = Some s' -> Off th i s -> Off th i s'.
+Proof.
+  induction evs as [|e evs IH]; intros s s' H HO; cbn in H; [now injection H as <-|].
+  destruct (step s e) as [s1|] eqn:Es; [|discriminate]. eapply IH; eauto using Off_step.
+Qed.
+
+(* a failed dependency wait puts the thread's instance there *)
+Lemma depfail_Off s th k s' : step s (th, EDepDone k false) = Some s' -> exists i, Off th i s'.
+Proof.
+  intros H. unfold step in H. cbn [fst snd] in H.
+  pose proof H as H0. cbn in H0. unfold step_own, own_inst in H0.
+  destruct (get th (thinst (flush th s))) as [i|] eqn:Et; [|discriminate].
+  destruct (get i (insts (flush th s))) as [x|] eqn:Ex; [|discriminate]. clear H0.
+  exists i. split.
+  - destruct (step_core_thinst _ _ _ _ H) as [->|(? & ? & _)]; [exact Et|discriminate].
+  - pose proof (step_core_pc _ th (EDepDone k false) _ eq_refl H i) as M. rewrite Ex in M. destruct M as (y & Ey & _ & _ & Ht).
+    exists y. split; [exact Ey|]. specialize (Ht eq_refl Et).
+    destruct (nofail_pc (pc y)) eqn:Ny; [|reflexivity]. destruct (trans_nofail _ _ _ Ht Ny). discriminate.
+Qed.
+
+(* (a), declaratively: in an accepted history no thread logs a launch attempt after it has logged a failed
+   dependency wait (a thread serves one instance for its whole life) *)
+Theorem C05_never_launched_lemma : forall cs ord p1 th k p2 ok p3 s,
+  accept (init cs ord) (p1 ++ (th, EDepDone k false) :: p2 ++ (th, ELaunch ok) :: p3) = Some s -> False.
+Proof.
+  intros cs ord p1 th k p2 ok p3 s H.
+  rewrite accept_app in H. destruct (accept (init cs ord) p1) as [s1|]; [|discriminate H]. cbn [accept] in H.
+  destruct (step s1 (th, EDepDone k false)) as [s2|] eqn:E2; [|discriminate H].
+  rewrite accept_app in H. destruct (accept s2 p2) as [s3|] eqn:E3; [|discriminate H]. cbn [accept] in H.
+  destruct (step s3 (th, ELaunch ok)) as [s4|] eqn:E4; [|discriminate H]. clear H.
+  destruct (depfail_Off _ _ _ _ E2) as (i & HO). apply (Off_accept th i p2 _ _ E3) in HO.
+  destruct HO as (Ht & x & Ex & Hp).
+  unfold step in E4. cbn [fst snd] in E4. cbn in E4. unfold step_own, own_inst in E4.
+  rewrite flush_thinst, Ht in E4. pose proof (flush_pc th s3 i) as F. rewrite Ex in F. destruct F as (x0 & Ex0 & _ & Hp0).
+  rewrite Ex0 in E4. destruct (pc x0) eqn:Epc; try discriminate. rewrite <- Hp0 in Hp. discriminate.
+Qed.
+
+(* (b1), declaratively: if the thread of instance i logged a failed dependency wait, every later
+   proc_ended of i reports Skipped or Terminating *)
+Theorem C05_ended_status_lemma : forall cs ord p0 th i p1 k p2 th' s0 p3 s,
+  accept (init cs ord) (p0 ++ (th, EBegin i) :: p1 ++ (th, EDepDone k false) :: p2 ++ (th', EProcEnded i s0) :: p3) = Some s ->
+  s0 = SSkipped \/ s0 = STerminating.
+Proof.
+  intros cs ord p0 th i p1 k p2 th' s0 p3 s H.
+  rewrite accept_app in H. destruct (accept (init cs ord) p0) as [s1|]; [|discriminate H]. cbn [accept] in H.
+  destruct (step s1 (th, EBegin i)) as [s2|] eqn:E2; [|discriminate H].
+  rewrite accept_app in H. destruct (accept s2 p1) as [s3|] eqn:E3; [|discriminate H]. cbn [accept] in H.
+  destruct (step s3 (th, EDepDone k false)) as [s4|] eqn:E4; [|discriminate H].
+  rewrite accept_app in H. destruct (accept s4 p2) as [s5|] eqn:E5; [|discriminate H]. cbn [accept] in H.
+  destruct (step s5 (th', EProcEnded i s0)) as [s6|] eqn:E6; [|discriminate H]. clear H.
+  (* th is bound to i from EBegin on *)
+  assert (Ht2 : get th (thinst s2) = Some i).
+  { unfold step in E2. cbn in E2. break_step E2. subst s2. cbn. apply get_set_same. }
+  assert (Ht3 : get th (thinst s3) = Some i).
+  { clear - E3 Ht2. revert s2 s3 E3 Ht2. induction p1 as [|e l IH]; intros s2 s3 E3 Ht2; cbn in E3; [now injection E3 as <-|].
+    destruct (step s2 e) as [sx|] eqn:Es; [|discriminate]. eapply IH; eauto using step_thinst. }
+  destruct (depfail_Off _ _ _ _ E4) as (i' & HO).
+  assert (i' = i). { destruct HO as (Ht4 & _). pose proof (step_thinst _ _ _ _ _ E4 Ht3). congruence. } subst i'.
+  apply (Off_accept th i p2 _ _ E5) in HO. destruct HO as (Ht & x & Ex & Hp).
+  unfold step in E6. cbn [fst snd] in E6. cbn in E6. unfold step_procend in E6.
+  pose proof (flush_pc th' s5 i) as F. rewrite Ex in F. destruct F as (x0 & Ex0 & _ & Hp0). rewrite Ex0 in E6.
+  rewrite <- Hp0 in Hp.
+  break_step E6; split_andb;
+    repeat match goal with E : status_eqb _ _ = true |- _ => apply status_eqb_eq in E; subst end; auto;
+    cbn in Hp; apply negb_false_iff in Hp; apply status_eqb_eq in Hp; auto.
+Qed.
+
